@@ -67,6 +67,9 @@ pub fn programs() -> Vec<(&'static str, String)> {
         ("recursion twenty-five calls deep", "fn r(n) {\nif n == 0 {\nreturn 0\n}\nreturn 1 + r(n - 1)\n}\nprint(r(25))\n".to_string()),
         ("comparison of objects with an unequal and an ill-typed property", "a := {\"k1\": 1, \"k2\": \"x\", \"k3\": 3, \"k4\": [4], \"k5\": 5, \"k6\": null}\nb := {\"k1\": 2, \"k2\": 5, \"k3\": 3, \"k4\": 4, \"k5\": \"5\", \"k6\": 0}\nprint(\"start\")\nprint(a == b)\nprint(a != b)\n".to_string()),
         ("comparison of objects whose first property is ill-typed", "a := {\"k1\": \"1\", \"k2\": 1, \"k3\": 3, \"k4\": 4, \"k5\": 5}\nb := {\"k1\": 1, \"k2\": 2, \"k3\": 4, \"k4\": 5, \"k5\": 6}\nprint(\"start\")\nprint(a == b)\n".to_string()),
+        ("a part reached twice, made before its holder", "s := [1]\nt := {\"k\": s}\na := [s, s, t, t]\nprint(a)\nprint({\"p\": s, \"q\": s, \"r\": [s]})\n".to_string()),
+        ("a part reached twice, made after its holder", "h := {\"x\": null, \"y\": null, \"z\": []}\nl := [0, 0, 0]\npad := [[1], [2], [3], [4]]\ns := [1]\nh.x = s\nh.y = s\nh.z = [s, s]\nl[0] = s\nl[2] = s\nl[1] = h\nprint(h)\nprint(l)\n".to_string()),
+        ("parts shared at several depths, made in mixed order", "inner := {\"v\": [7]}\nmid1 := [inner]\nouter := {\"a\": null, \"b\": null, \"c\": null}\nmid2 := {\"i\": inner}\nouter.a = mid1\nouter.b = mid2\nouter.c = [mid1, mid2, inner, inner.v]\nprint(outer)\nlate := [outer, mid1]\nprint(late)\n".to_string()),
         ("for over an object built by collect", format!("{}{{k3, ..r}} := o\nfor [k, v] in r {{\nprint([k, v])\n}}\n{{k1, k2, ..s}} = r\nprint(s)\n", big).replace("{k1, k2, ..s} = r", "k1 := 0\nk2 := 0\ns := 0\n{k1, k2, ..s} = r")),
     ]
 }
